@@ -51,9 +51,27 @@ CHECKS = {
             "vf/refsem.py). Regex patterns are restricted to a set on which Python re and Rust regex agree. import/include/out/convert/assert "
             "are owned by C09/C15/C14/C03/C13.",
             "DESIGN.md section 4 C01"),
+    "C07": ("exploration",
+            "bounded-exhaustive differential enumeration: eval_string (no checker) versus FileBuilder::build (checker + VM) on the C01 strata",
+            "Every program of C01 strata S1, S2, S3-pairs (thorough: triples), S4 and 50 documented forms (functional operators over bound and "
+            "literal tuples/strings, calls/copies through selectors, selector depth 1..4, computed/quoted selectors, heterogeneous list "
+            "concatenation) is evaluated without the checker; each one that succeeds (and on which the reference interpreter, run eagerly "
+            "over skipped branches, also succeeds) is written to a file and built with the checker. The build must succeed with equal values.",
+            "Programs that evaluate only because an ill-typed branch is never reached (short-circuit, unselected select arm) are left out: "
+            "rejecting them is a legitimate static check. mod.pkg (present only in file builds, documented) is ignored when comparing values.",
+            "DESIGN.md section 4 C07"),
+    "C10": ("exploration",
+            "bounded-exhaustive enumeration of statement sequences cut at every boundary (prefix law, differential) plus reference interpreter",
+            "All 30 940 sequences of 1..4 statements (thorough 1..5) over a pool of 13 interacting statements (lets, closures, module, format "
+            "item, expression statement, shadowing parameter, rebinding) and every C01-S4 scoping program are cut at every statement "
+            "boundary and run by eval_string: bindings of a prefix must reappear unchanged in every longer successful prefix, a failing "
+            "prefix must stay failing, and every prefix must agree with the reference interpreter. Every word of the manual's reserved list "
+            "in 3 binding positions and every pair of 4 binder kinds in 3 placements must be refused.",
+            "Trusts the reference interpreter for (ii); (i), (iii), (iv) need no model.",
+            "DESIGN.md section 4 C10"),
 }
 
-CLAIMED = ["C01", "C02", "C04", "C11"]
+CLAIMED = ["C01", "C02", "C04", "C07", "C10", "C11"]
 
 NOT_YET = "check not built yet in this round; design in DESIGN.md section 4 (bounded-exhaustive enumeration applies)"
 
